@@ -1352,6 +1352,39 @@ namespace bloch::runtime {
             for (const auto& v : cls->staticStorage) markValue(v);
         }
         markValue(m_returnValue);
+        // An object can also be referenced from outside everything marked so far: by a value the
+        // interpreter is holding in the middle of an expression (an already evaluated call
+        // argument, the receiver of a running method, an object still under construction, a
+        // returned temporary). Such a reference shows up as a use count that the references
+        // found inside the unmarked part of the heap cannot account for. Those objects are
+        // roots too; sweeping them wiped live fields and cancelled their destructors.
+        for (bool again = true; again;) {
+            again = false;
+            std::unordered_map<const Object*, long> internal;
+            auto countRef = [&](const std::shared_ptr<Object>& o) {
+                if (o && !o->marked)
+                    internal[o.get()]++;
+            };
+            for (const auto& obj : objects) {
+                if (obj->marked)
+                    continue;
+                for (const auto& f : obj->fields) {
+                    if (f.type == Value::Type::Object)
+                        countRef(f.objectValue);
+                    else if (f.type == Value::Type::ObjectArray)
+                        for (const auto& o : f.objectArray) countRef(o);
+                }
+            }
+            for (const auto& obj : objects) {
+                if (obj->marked)
+                    continue;
+                long external = obj.use_count() - 1 - internal[obj.get()];  // -1: 'objects' itself
+                if (external > 0) {
+                    markObject(obj);
+                    again = true;
+                }
+            }
+        }
         // Sweep unmarked non-tracked objects
         std::vector<std::shared_ptr<Object>> unreachable;
         for (auto& obj : objects) {
